@@ -18,6 +18,7 @@ import (
 	"io/fs"
 	"os"
 	"path/filepath"
+	"reflect"
 	"sort"
 	"strings"
 )
@@ -203,8 +204,27 @@ func (c *ctx) yields(fc *fileCtx, list []ast.Stmt, emptyOff int, emptyPos token.
 			continue // the "statements" of a switch/select body are its clauses
 		}
 		n++
+		hot, simple := c.hotStmt(s)
 		id := c.site(fc, s.Pos(), "yield", "")
 		text := fmt.Sprintf("%s.Yield(%d); ", alias, id)
+		if hot {
+			// a synchronisation point: package-level state, sync or sync/atomic
+			c.rep.Kinds["yield-hot"]++
+			text = fmt.Sprintf("%s.YieldHot(%d); ", alias, id)
+			if simple {
+				id2 := c.site(fc, s.End(), "yield", "(after synchronisation point)")
+				fc.insert(fc.off(c.fset, s.End()), fmt.Sprintf("; %s.YieldHot(%d)", alias, id2))
+			}
+			if is, ok := s.(*ast.IfStmt); ok {
+				// the branch taken on the strength of what the condition saw
+				id2 := c.site(fc, is.Body.Lbrace, "yield", "(after hot condition)")
+				fc.insert(fc.off(c.fset, is.Body.Lbrace)+1, fmt.Sprintf(" %s.YieldHot(%d); ", alias, id2))
+				if eb, ok := is.Else.(*ast.BlockStmt); ok {
+					id3 := c.site(fc, eb.Lbrace, "yield", "(after hot condition)")
+					fc.insert(fc.off(c.fset, eb.Lbrace)+1, fmt.Sprintf(" %s.YieldHot(%d); ", alias, id3))
+				}
+			}
+		}
 		if _, isDefer := s.(*ast.DeferStmt); isDefer {
 			// Deferred calls run last-in first-out: a deferred yield registered just before
 			// runs right AFTER the original deferred call, i.e. between the function's
@@ -218,6 +238,64 @@ func (c *ctx) yields(fc *fileCtx, list []ast.Stmt, emptyOff int, emptyPos token.
 		id := c.site(fc, emptyPos, "yield", "(empty block)")
 		fc.insert(emptyOff, fmt.Sprintf(" %s.Yield(%d); ", alias, id))
 	}
+}
+
+// hotStmt reports whether the statement's own expressions (not the bodies it governs) touch
+// package-level variables of the library or call into sync / sync/atomic, and whether it is a
+// simple statement after which a further yield can be placed.
+func (c *ctx) hotStmt(s ast.Stmt) (hot, simple bool) {
+	var parts []ast.Node
+	switch s := s.(type) {
+	case *ast.ExprStmt, *ast.AssignStmt, *ast.IncDecStmt, *ast.DeclStmt:
+		parts, simple = []ast.Node{s}, true
+	case *ast.ReturnStmt, *ast.DeferStmt, *ast.GoStmt, *ast.SendStmt:
+		parts = []ast.Node{s}
+	case *ast.IfStmt:
+		parts = []ast.Node{s.Init, s.Cond}
+	case *ast.ForStmt:
+		parts = []ast.Node{s.Init, s.Cond, s.Post}
+	case *ast.RangeStmt:
+		parts = []ast.Node{s.X}
+	case *ast.SwitchStmt:
+		parts = []ast.Node{s.Init, s.Tag}
+	case *ast.TypeSwitchStmt:
+		parts = []ast.Node{s.Init, s.Assign}
+	case *ast.LabeledStmt:
+		h, _ := c.hotStmt(s.Stmt)
+		return h, false
+	}
+	for _, p := range parts {
+		if p == nil || reflect.ValueOf(p).IsNil() {
+			continue
+		}
+		ast.Inspect(p, func(n ast.Node) bool {
+			switch n := n.(type) {
+			case *ast.FuncLit:
+				return false
+			case *ast.Ident:
+				obj := c.info.Uses[n]
+				if obj == nil {
+					obj = c.info.Defs[n]
+				}
+				if v, ok := obj.(*types.Var); ok && !v.IsField() && v.Pkg() == c.pkg && v.Parent() == c.pkg.Scope() {
+					hot = true
+				}
+			case *ast.CallExpr:
+				if path, _, sel := c.pkgFunc(n); sel != nil && path == "sync/atomic" {
+					hot = true
+				}
+				if sel, ok := n.Fun.(*ast.SelectorExpr); ok {
+					if sn := c.info.Selections[sel]; sn != nil && sn.Kind() == types.MethodVal {
+						if f, ok := sn.Obj().(*types.Func); ok && f.Pkg() != nil && (f.Pkg().Path() == "sync" || f.Pkg().Path() == "sync/atomic") {
+							hot = true
+						}
+					}
+				}
+			}
+			return true
+		})
+	}
+	return hot, simple
 }
 
 func (c *ctx) instrumentCall(fc *fileCtx, call *ast.CallExpr) {
